@@ -48,10 +48,11 @@ theorem vr : ∀ (v : PV), WF v → decode (encode v) = canon v
   | .float _, _ => by simp [encode, decode, canon]
   | .str _, _ => by simp [encode, decode, canon]
   | .npScalar _, _ => by simp [encode, decode, canon]
+  | .npExotic _ _, _ => by simp [encode, canon, decode_marker, cStrides]
   | .payload _ _, _ => by simp [encode, decode, canon]
   | .arr dtype [] st off mem, _ => by simp [encode, canon, decode_marker]
   | .arr dtype [n] st off mem, _ => by
-    by_cases hn : (n ≤ 10 && !isComplexDtype dtype) = true
+    by_cases hn : (n ≤ 10 && !noListDtype dtype) = true
     · simp only [encode, canon, hn, if_true]
       simp [decode, decodeList_ofInts]
     · simp only [encode, canon, hn]
@@ -183,7 +184,7 @@ theorem value_roundtrip (v : PV) (h : WF v) : decode (encode v) = canon v := vr 
 /-- an array that is not a short 1-D non-complex one comes back as an array with the same dtype string,
 the same shape, C-contiguous, holding the row-major copy of the saved elements -/
 theorem array_roundtrip (dtype : String) (shape : List Nat) (strides : List Int) (off : Int) (mem : List Int)
-    (hbig : ∀ n, shape = [n] → (n ≤ 10 && !isComplexDtype dtype) = false) :
+    (hbig : ∀ n, shape = [n] → (n ≤ 10 && !noListDtype dtype) = false) :
     decode (encode (.arr dtype shape strides off mem)) =
       .arr dtype shape (cStrides shape) 0 (gather mem shape strides off) := by
   rw [value_roundtrip _ (by simp [WF])]
@@ -204,11 +205,11 @@ theorem gather_1d (mem : List Int) (n : Nat) (s : Int) (off : Int) :
 /-- a 1-D array of at most ten items of a non-complex dtype comes back as the list of its elements in
 index order (whatever its stride: `a[::2]`, `a[::-1]` included) -/
 theorem small_array_roundtrip (dtype : String) (n : Nat) (s : Int) (off : Int) (mem : List Int)
-    (hn : n ≤ 10) (hc : isComplexDtype dtype = false) :
+    (hn : n ≤ 10) (hc : noListDtype dtype = false) :
     decode (encode (.arr dtype [n] [s] off mem)) =
       .list (ofInts ((List.range n).map fun (i : Nat) => getMem mem (off + (i : Int) * s))) := by
   rw [value_roundtrip _ (by simp [WF])]
-  have : (n ≤ 10 && !isComplexDtype dtype) = true := by simp [hn, hc]
+  have : (n ≤ 10 && !noListDtype dtype) = true := by simp [hn, hc]
   simp only [canon, this, if_true, gather_1d]
 
 theorem key_roundtrip (hs : IntStrOK) (k : Key) (hk : KeyOK k) : intifyKey (stringifyKey k) = k := by
